@@ -23,6 +23,7 @@ from .model_matrix import ModelMatrix
 from .parser import DefaultFormulaParser
 from .parser.types import Factor, FormulaParser, OrderedSet, Term
 from .utils.calculus import differentiate_term
+from .utils.code import sanitize_variable_names
 from .utils.deprecations import deprecated
 from .utils.structured import Structured
 from .utils.variables import Variable, get_expression_variables
@@ -546,9 +547,13 @@ class SimpleFormula(
                     # context), not Python code: report it as it is.
                     variables.append(Variable(factor.expr, roles=["value"]))
                 elif factor.eval_method is Factor.EvalMethod.PYTHON:
+                    # Back-quoted names are not valid Python: substitute them
+                    # (as is done when evaluating the factor) and map them back.
+                    aliases: dict[str, str] = {}
+                    expr = sanitize_variable_names(factor.expr, {}, aliases)
                     variables.extend(
                         variable
-                        for variable in get_expression_variables(factor.expr, {})
+                        for variable in get_expression_variables(expr, {}, aliases)
                         if "value" in variable.roles
                         and variable.split(".", 1)[0] not in TRANSFORMS
                     )
